@@ -233,11 +233,20 @@ pub fn run(p: &Params, rep: &mut Report) {
         let b = if rng.chance(1, 2) { related(&mut rng, &a) } else { gen_intervals(&mut rng, 6) };
         let ps: Vec<Ivs> = if i % 4 == 3 {
             // lists of 3 to 4, and every eighth case a long list (up to 18 partitions)
-            let k = if i % 32 == 31 { 3 + rng.usize(14) } else { 1 + rng.usize(2) };
+            // ... and every 64th case a list of 31-100 small partitions, one of which reaches the last character
+            let k = if i % 64 == 63 { 29 + rng.usize(70) } else if i % 32 == 31 { 3 + rng.usize(14) } else { 1 + rng.usize(2) };
             let mut v = vec![a.clone(), b];
             for _ in 0..k {
-                let c = if rng.chance(1, 2) { related(&mut rng, &a) } else { gen_intervals(&mut rng, 4) };
+                let c = if k > 20 { gen_intervals(&mut rng, 2) } else if rng.chance(1, 2) { related(&mut rng, &a) } else { gen_intervals(&mut rng, 4) };
                 v.push(c);
+            }
+            if k > 20 {
+                let lo = MAXC - rng.below(0x200) as u32;
+                let at = rng.usize(v.len());
+                v.insert(at, vec![(lo, MAXC)]);
+                if rng.chance(1, 2) {
+                    v.push(vec![(0, rng.below(0x80) as u32)]);
+                }
             }
             v
         } else {
